@@ -4,12 +4,14 @@ import sys
 from harness import coqio as q
 
 ID = "C17"
-COQ_REQUIRE = ["M_PseudoTree"]
+COQ_REQUIRE = ["M_PseudoTree", "M_PseudoTree2"]
 COQ_CASE_TYPE = "M_PseudoTree.case"
-COQ_CHECK = "M_PseudoTree.check_case"
+COQ_CHECK = "M_PseudoTree2.check_case2"   # check_case && wf_graphb (hypothesis of build_valid)
 OBLIGATIONS = ["pt_check_sound", "pt_valid_ancestral", "pt_valid_order", "pt_valid_rooted",
                "pt_valid_wf", "pt_valid_scope_chain", "pt_constraints_exact",
-               "pt_nodes_partial", "pt_links_partial"]
+               "pt_nodes_partial", "pt_links_partial",
+               "build_valid", "build_no_fuel_exhaustion", "pt_nodes", "pt_links_converse",
+               "pt_acyclic", "pt_edges_ancestral", "pt_roots", "wf_graphb_sound", "build_needs_wf_refuted"]
 N_QUICK, N_THOROUGH = 500, 5000
 PARALLEL = 8
 SHARD = 80
